@@ -191,9 +191,9 @@ func decode(evs []porcupine.Event) []pev {
 // roundTrip writes evs with the real SaveAsJepsenLog, prints the lines and the parsed history, and returns the parse
 func roundTrip(c *lcm.Coordinator, evs []lcm.VerifEvent, dir string, n int) []porcupine.Event {
 	c.VerifSetEvents(evs)
-	fn := filepath.Join(dir, fmt.Sprintf("hist-%d.jepsen", n))
+	// the monkey test saves every run under one fixed name: so does the harness (a shorter history over a longer one)
+	fn := filepath.Join(dir, "drummer-lcm.jepsen")
 	c.SaveAsJepsenLog(fn)
-	defer os.Remove(fn)
 	arr := [][]interface{}{}
 	for _, e := range evs {
 		var v interface{} = e.Value
